@@ -205,9 +205,41 @@ inline HarnessArgs parseArgs(int argc, char** argv)
     return a;
 }
 
+// A case file may carry one earlier case of the same process (keys prefixed "earlier."): it is executed first and its
+// outcome ignored. This makes "the outcome of a case does not depend on what the process did before" replayable: a failure
+// that needs state left behind by an earlier case (a function-local static, a shared cache in the code under test) is
+// saved as the pair.
+inline KV earlierPart(const KV& c)
+{
+    KV e;
+    for (auto& it : c.items)
+        if (it.first.rfind("earlier.", 0) == 0)
+            e.items.emplace_back(it.first.substr(8), it.second);
+    return e;
+}
+inline KV withEarlier(const KV& c, const KV& earlier)
+{
+    KV r;
+    for (auto& it : c.items)
+        if (it.first.rfind("earlier.", 0) != 0)
+            r.items.push_back(it);
+    for (auto& it : earlier.items)
+        if (it.first.rfind("earlier.", 0) != 0 && it.first != "fail_oracle" && it.first != "fail_msg")
+            r.items.emplace_back("earlier." + it.first, it.second);
+    return r;
+}
+
 inline int runReplay(const HarnessArgs& a, const RunFn& run)
 {
     KV c = KV::load(a.replay);
+    KV e = earlierPart(c);
+    if (!e.items.empty()) {
+        try {
+            (void)run(e);
+        }
+        catch (const std::exception&) {
+        }
+    }
     Outcome o;
     try {
         o = run(c);
@@ -284,6 +316,8 @@ inline int runCampaign(const HarnessArgs& a, const std::string& name, const GenF
     const bool freshConfirm = getenv("VERIF_FRESH_CONFIRM") != nullptr;
     long evalsAfterFailure  = 0;
     bool haveFailure        = false;
+    std::vector<KV> history; // cases executed earlier in this process
+    KV frozenPrev;           // the earlier case a history-dependent failure was reproduced with
     bool ok = rc::check(name, [&] {
         KV c = gen();
         if (haveFailure && ++evalsAfterFailure > maxShrink)
@@ -308,24 +342,66 @@ inline int runCampaign(const HarnessArgs& a, const std::string& name, const GenF
             // behind in this process (e.g. a function-local static in the code under test) - it is counted and the
             // campaign goes on looking for a self-contained reproducer (the driver reports such counts as inconclusive).
             const std::string probe = a.out + "/probe_" + std::to_string(a.worker) + ".case";
-            c.save(probe);
-            fflush(nullptr);
-            pid_t pid = fork();
-            if (pid == 0) {
-                int fd = open("/dev/null", O_WRONLY);
-                if (fd >= 0) {
-                    dup2(fd, 1);
-                    dup2(fd, 2);
+            auto passesFresh = [&](const KV& k) {
+                k.save(probe);
+                fflush(nullptr);
+                pid_t pid = fork();
+                if (pid == 0) {
+                    int fd = open("/dev/null", O_WRONLY);
+                    if (fd >= 0) {
+                        dup2(fd, 1);
+                        dup2(fd, 2);
+                    }
+                    execl("/proc/self/exe", "harness", "--replay", probe.c_str(), (char*)nullptr);
+                    _exit(127);
                 }
-                execl("/proc/self/exe", "harness", "--replay", probe.c_str(), (char*)nullptr);
-                _exit(127);
+                int status = 0;
+                waitpid(pid, &status, 0);
+                return WIFEXITED(status) && WEXITSTATUS(status) == 0;
+            };
+            if (passesFresh(c)) {
+                // not a function of the case alone: does it reproduce together with ONE case executed earlier in this
+                // process (the one just before it, the first ones, the most recent ones; at most 40 attempts)?
+                std::vector<const KV*> cand;
+                if (haveFailure)
+                    cand.push_back(&frozenPrev);
+                else {
+                    const int H = (int)history.size();
+                    for (int i = H - 1; i >= std::max(0, H - 24); i--)
+                        cand.push_back(&history[i]);
+                    for (int i = 0; i < std::min(16, H - 24); i++)
+                        cand.push_back(&history[i]);
+                }
+                bool found = false;
+                for (const KV* before : cand) {
+                    if (before->items.empty())
+                        continue;
+                    KV pair = withEarlier(c, *before);
+                    if (!passesFresh(pair)) {
+                        if (!haveFailure)
+                            frozenPrev = *before;
+                        c = pair;
+                        o.msg += " [only after an earlier case in the same process: its outcome depends on state left behind]";
+                        st.counts["failures_depending_on_an_earlier_case"]++;
+                        found = true;
+                        break;
+                    }
+                }
+                if (!found) {
+                    st.counts["failures_not_reproducible_in_fresh_process"]++;
+                    st.flush();
+                    return;
+                }
             }
-            int status = 0;
-            waitpid(pid, &status, 0);
-            if (WIFEXITED(status) && WEXITSTATUS(status) == 0) {
-                st.counts["failures_not_reproducible_in_fresh_process"]++;
-                st.flush();
-                return;
+        }
+        if (o.ok && freshConfirm && !haveFailure) {
+            // remembered as possible "earlier case" of a later history-dependent failure (first 16 and last 24 kept)
+            if (history.size() < 16)
+                history.push_back(c);
+            else {
+                if (history.size() >= 40)
+                    history.erase(history.begin() + 16);
+                history.push_back(c);
             }
         }
         if (!o.ok) {
